@@ -276,7 +276,12 @@ func C07(c *ev.Ctx) {
 		if !crashed {
 			missing, firstMissing := 0, ""
 			for _, ce := range res.errs {
-				if !strings.Contains(gout.stderr, "  src: "+ce.GoSrcFile+"\n") && !strings.HasSuffix(gout.stderr, "  src: "+ce.GoSrcFile) {
+				// the position as <package dir>/<file>:<line>:<col>, wherever and however the command prints it
+				pos := ce.GoSrcFile
+				if parts := strings.Split(pos, "/"); len(parts) > 2 {
+					pos = strings.Join(parts[len(parts)-2:], "/")
+				}
+				if !regexp.MustCompile(regexp.QuoteMeta(pos) + `(\D|$)`).MatchString(gout.stderr) {
 					missing++
 					if firstMissing == "" {
 						firstMissing = fmt.Sprintf("[%s] %s at %s", ce.Category, ce.Message, ce.GoSrcFile)
